@@ -99,9 +99,12 @@ def concurrent_stage(prop, wd, scns, verdict, cov, plans, label="conc"):
     for (mode, runs, bound) in plans:
         tag = "%s_%s%d" % (label, mode, bound)
         traces, scheds, st = vlib.explore(scn_file, wd, tag, mode, runs=runs, bound=bound)
-        log("  [run] %s: %d scenarios, %s bound=%d: %d runs, %d distinct traces, %d with preemptions, outcomes %s%s" %
+        log("  [run] %s: %d scenarios, %s bound=%d: %d runs, %d distinct traces, %d with preemptions, outcomes %s%s%s" %
             (label, len(scns), mode, bound, st["runs"], st["distinct_traces"], st["nontrivial"], st["outcomes"],
-             "" if st["exhaustive"] or mode != "dfs" else " (run cap reached: not exhaustive)"))
+             "" if st["exhaustive"] or mode != "dfs" else " (run cap reached: not exhaustive)",
+             " (%d shards stopped by the time budget)" % st["out_of_time"] if st["out_of_time"] else ""))
+        cov.setdefault("shards_stopped_by_time_budget", 0)
+        cov["shards_stopped_by_time_budget"] += st["out_of_time"]
         for c in st["crashes"]:
             verdict.crash(c, wd)
         val = vlib.validate_many(traces, wd)
@@ -327,12 +330,12 @@ def impl_model_stage(prefixes, expect_fail=(), orig_mutants=()):
     return stage
 
 
-def plans_for(tier, dfs_cap_quick=700, dfs_cap_thorough=20000, rnd_quick=150, rnd_thorough=3000):
+def plans_for(tier, dfs_cap_quick=700, dfs_cap_thorough=8000, rnd_quick=150, rnd_thorough=1500):
     # bound 1 first: every schedule in which one thread is frozen once, at any op, while the others run on
     # (linear in the run length, normally complete), then the deeper capped enumeration
     if tier == "quick":
         return [("dfs", 1500, 1), ("dfs", dfs_cap_quick, 2), ("random", rnd_quick, 0), ("pct", rnd_quick, 0)]
-    return [("dfs", 100000, 1), ("dfs", dfs_cap_thorough, 3), ("random", rnd_thorough, 0), ("pct", rnd_thorough, 0)]
+    return [("dfs", 20000, 1), ("dfs", dfs_cap_thorough, 3), ("random", rnd_thorough, 0), ("pct", rnd_thorough, 0)]
 
 
 def caps_for(tier):
@@ -341,6 +344,7 @@ def caps_for(tier):
 
 def generic_check(prop, tier, own, scns, plans, rule, gens=None, extra_assume=(), models=None):
     t0 = time.time()
+    vlib.TIME_BUDGET = 60 if tier == "quick" else 240
     wd = vlib.workdir(prop)
     v = vlib.Verdict(prop, own)
     cov = new_cov(rule)
